@@ -1,0 +1,39 @@
+//go:build verif
+
+package core
+
+import (
+	"sort"
+
+	"go.nanomsg.org/mangos/v3"
+)
+
+// VerifPipeIDsInUse returns a snapshot of the pipe IDs currently allocated
+// in this process.  Verification hook; only built with the "verif" tag.
+func VerifPipeIDsInUse() []uint32 {
+	pipeIDs.lock.Lock()
+	defer pipeIDs.lock.Unlock()
+	ids := make([]uint32, 0, len(pipeIDs.used))
+	for id := range pipeIDs.used {
+		ids = append(ids, id)
+	}
+	sort.Slice(ids, func(i, j int) bool { return ids[i] < ids[j] })
+	return ids
+}
+
+// VerifSocketPipes returns the IDs of the pipes still listed by the socket,
+// or nil if the socket is not a core socket.
+func VerifSocketPipes(sock mangos.Socket) []uint32 {
+	s, ok := sock.(*socket)
+	if !ok {
+		return nil
+	}
+	s.pipes.lock.Lock()
+	defer s.pipes.lock.Unlock()
+	ids := make([]uint32, 0, len(s.pipes.pipes))
+	for id := range s.pipes.pipes {
+		ids = append(ids, id)
+	}
+	sort.Slice(ids, func(i, j int) bool { return ids[i] < ids[j] })
+	return ids
+}
